@@ -428,7 +428,7 @@ func mixProfile(profile string, g *gen) (mixW, bool) {
 	case "levels": // C15
 		return mixW{write: 50, ingest: 10, ingestExcise: 4, excise: 5, flush: 8, compact: 6, scan: 1, reopen: 1, wait: 1, rangeKeys: g.r.IntN(2) == 0}, true
 	case "close": // C47
-		return mixW{write: 50, ingest: 5, excise: 2, flush: 6, compact: 5, scan: 2, reopen: 8, snap: 6, iter: 8, ibatch: 4, wait: 1, rangeKeys: g.r.IntN(2) == 0}, true
+		return mixW{write: 50, ingest: 5, excise: 2, flush: 6, compact: 5, scan: 2, reopen: 8, snap: 6, efos: 5, iter: 8, ibatch: 4, wait: 1, rangeKeys: g.r.IntN(2) == 0}, true
 	case "ingest": // C36
 		return mixW{write: 35, ingest: 14, ingestExcise: 7, excise: 7, flush: 6, compact: 5, scan: 3, iter: 14, snap: 6, rangeKeys: g.r.IntN(2) == 0, longLived: true, iterOpsPerStep: 3}, true
 	case "efos": // C37
@@ -443,7 +443,7 @@ func mixProfile(profile string, g *gen) (mixW, bool) {
 		return mixW{write: 50, ingest: 4, ingestExcise: 1, excise: 2, flush: 9, compact: 7, scan: 4, reopen: 2, iter: 8, snap: 3, wait: 3, crash: 1,
 			rangeKeys: g.r.IntN(2) == 0, iterOpsPerStep: 3}, true
 	case "files": // C39
-		return mixW{write: 45, ingest: 5, ingestExcise: 2, excise: 3, flush: 9, compact: 9, scan: 1, reopen: 5, crash: 2, iter: 16, snap: 4, efos: 2, wait: 2, rangeKeys: g.r.IntN(2) == 0, longLived: true, iterOpsPerStep: 2}, true
+		return mixW{write: 45, ingest: 5, ingestExcise: 2, excise: 3, flush: 9, compact: 9, scan: 1, reopen: 5, crash: 2, iter: 16, snap: 4, efos: 6, wait: 2, rangeKeys: g.r.IntN(2) == 0, longLived: true, iterOpsPerStep: 2}, true
 	case "corrupt": // C27
 		return mixW{write: 60, ingest: 5, flush: 12, compact: 8, scan: 2, wait: 1, rangeKeys: g.r.IntN(2) == 0}, true
 	case "valsep": // C44
